@@ -15,6 +15,7 @@ import (
 
 	"github.com/q191201771/lal/pkg/base"
 	"github.com/q191201771/lal/pkg/httpflv"
+	"github.com/q191201771/lal/pkg/httpts"
 	"github.com/q191201771/lal/pkg/logic"
 	"github.com/q191201771/lal/pkg/rtmp"
 	"github.com/q191201771/lal/pkg/rtsp"
@@ -38,6 +39,7 @@ type lcCfg struct {
 	Leak        int      `json:"leak"`
 	PushTargets []string `json:"pushTargets"` // relay push targets (one gated stub RTMP server each)
 	ParamLen    int      `json:"paramLen"`    // length of the URL parameters of RTMP publishers
+	TsSubs      []string `json:"tsSubs"`      // HTTP-TS subscribers
 	WirePubs    []string `json:"wirePubs"`    // RTMP publishers on real loopback connections served by the server's own routine
 }
 
@@ -120,6 +122,7 @@ type lcSession struct {
 	cmd    *rtsp.ServerCommandSession
 	cust   logic.ICustomizePubSessionContext
 	flv    *httpflv.SubSession
+	ts     *httpts.SubSession
 	psPort int
 	done   chan struct{}
 	push   *rtmp.PushSession   // wire publisher: the client end
@@ -146,6 +149,7 @@ var lcLogOnce sync.Once
 
 func lifecycleDriver(env *Env) error {
 	httpflv.SubSessionWriteChanSize = 0
+	httpts.SubSessionWriteChanSize = 0
 	tw, err := NewTraceWriter(env.Out)
 	if err != nil {
 		return err
@@ -274,7 +278,7 @@ func (o *lcOrigin) close() {
 
 func kindOf(cfg *lcCfg, x string) string {
 	for k, l := range map[string][]string{"rtmpPub": cfg.RtmpPubs, "rtspPub": cfg.RtspPubs, "custPub": cfg.CustPubs,
-		"psPub": cfg.PsPubs, "rtmpSub": cfg.RtmpSubs, "flvSub": cfg.FlvSubs, "wirePub": cfg.WirePubs} {
+		"psPub": cfg.PsPubs, "rtmpSub": cfg.RtmpSubs, "flvSub": cfg.FlvSubs, "wirePub": cfg.WirePubs, "tsSub": cfg.TsSubs} {
 		for _, y := range l {
 			if y == x {
 				return k
@@ -609,6 +613,12 @@ func runLifecycleScenario(sc *lcScenario, emitEv func(M)) {
 				s.key = s.rtmp.UniqueKey()
 				register(x, s)
 				err = sm.OnNewRtmpSubSession(s.rtmp)
+			} else if kind == "tsSub" {
+				u, _ := base.ParseUrl("http://127.0.0.1/live/"+stream+".ts", 80)
+				s.ts = httpts.NewSubSession(s.conn, u, false, "")
+				s.key = s.ts.UniqueKey()
+				register(x, s)
+				err = sm.OnNewHttptsSubSession(s.ts)
 			} else {
 				u, _ := base.ParseUrl("http://127.0.0.1/live/"+stream+".flv", 80)
 				s.flv = httpflv.NewSubSession(s.conn, u, false, "")
@@ -627,6 +637,8 @@ func runLifecycleScenario(sc *lcScenario, emitEv func(M)) {
 			s := sess[x]
 			if s.kind == "rtmpSub" {
 				sm.OnDelRtmpSubSession(s.rtmp)
+			} else if s.kind == "tsSub" {
+				sm.OnDelHttptsSubSession(s.ts)
 			} else {
 				sm.OnDelHttpflvSubSession(s.flv)
 			}
@@ -639,7 +651,7 @@ func runLifecycleScenario(sc *lcScenario, emitEv func(M)) {
 				// a session that never came into being still has a well-formed id of its kind
 				key = map[string]string{"rtmpPub": base.UkPreRtmpServerSession, "rtmpSub": base.UkPreRtmpServerSession,
 					"wirePub": base.UkPreRtmpServerSession, "rtspPub": base.UkPreRtspPubSession, "custPub": base.UkPreCustomizePubSessionContext,
-					"psPub": base.UkPrePsPubSession, "flvSub": base.UkPreFlvSubSession}[kind] + "999999"
+					"psPub": base.UkPrePsPubSession, "flvSub": base.UkPreFlvSubSession, "tsSub": base.UkPreTsSubSession}[kind] + "999999"
 			}
 			resp := sm.CtrlKickSession(base.ApiCtrlKickSessionReq{StreamName: stream, SessionId: key})
 			ret := "ok"
@@ -1001,7 +1013,7 @@ func (o *lcPushTargetObserver) OnNewRtmpPubSession(session *rtmp.ServerSession) 
 	session.SetPubSessionObserver(o) // the target takes the media (without an observer it would hang up on the first message)
 	return nil
 }
-func (o *lcPushTargetObserver) OnReadRtmpAvMsg(msg base.RtmpMsg) {}
+func (o *lcPushTargetObserver) OnReadRtmpAvMsg(msg base.RtmpMsg)                      {}
 func (o *lcPushTargetObserver) OnNewRtmpSubSession(session *rtmp.ServerSession) error { return nil }
 
 // pushCounts returns the connection attempts the targets have seen and the push sessions attached.
